@@ -155,7 +155,7 @@ BAD_KEYS = st.text(alphabet="abcdefghijklmnopqrstuvwxyz_", min_size=1, max_size=
 
 @st.composite
 def xcopy_bad(draw, spc5):
-    a = draw(paramgen.xcopy_args(spc5, seg_codes=(0x00, 0x02, 0x0B, 0x0D)))
+    a = draw(paramgen.xcopy_args(spc5))
     lst = "cscd_descriptor_list" if spc5 else "target_descriptor_list"
     kind = draw(st.sampled_from(["target_key", "target_type", "target_pdt", "lu_id_type", "segment_key", "segment_type"]))
     pre_t = list(a.get(lst, []))
@@ -185,7 +185,7 @@ def xcopy_bad(draw, spc5):
         a[lst] = pre_t
         nt = pos > 0 or len(pre_s) > 0
     else:
-        d = draw(paramgen.segment(spc5, (0x00, 0x02, 0x0B, 0x0D)))
+        d = draw(paramgen.segment(spc5))
         if kind == "segment_key":
             code = d["_code"]
             k = draw(BAD_KEYS.filter(lambda x: x not in SEG_KEYS(spc5, code)))
@@ -325,7 +325,7 @@ def run(ctx):
     for spc5 in (False, True):
         tag = "5" if spc5 else "4"
         common.search(ctx, "xcopy%s:invalid" % tag, xcopy_bad(spc5), check_xcopy(spc5), 2 * k)
-        common.search(ctx, "xcopy%s:valid" % tag, paramgen.xcopy_args(spc5, seg_codes=(0x00, 0x02, 0x0B, 0x0D)),
+        common.search(ctx, "xcopy%s:valid" % tag, paramgen.xcopy_args(spc5),
                       check_xcopy_valid(spc5), max(20, k // 2))
     common.search(ctx, "transportid", tpid_bad(), check_tpid, 2 * k)
 
